@@ -49,15 +49,15 @@ Print Assumptions c05_unknown_neutral.
 
 
 (* ---- ties to the constant tables regenerated from the Go sources (tools/gotables -> GoTables.v) ---- *)
-From Coq Require Import List String ZArith NArith Bool. From Bexpr Require Import Base Strconv Ast Univ Eval Api Dump GoTables TableTie. Import ListNotations.
+From Coq Require Import List String ZArith NArith Bool. From Bexpr Require Import Base Strconv Ast Univ Eval Api Dump GoTables TableTie TieNotPresent. Import ListNotations.
 
 Theorem not_present_table :
   forall op : matchop, assoc (mop_go op) go_not_present = Some (bool_go (disposition op)).
-Proof. exact TableTie.not_present_table. Qed.
+Proof. exact TieNotPresent.not_present_table. Qed.
 Print Assumptions not_present_table.
 
 Theorem not_present_default :
   assoc "default" go_not_present = Some "false".
-Proof. exact TableTie.not_present_default. Qed.
+Proof. exact TieNotPresent.not_present_default. Qed.
 Print Assumptions not_present_default.
 
